@@ -38,6 +38,38 @@ def F(t, i, src, ds):
         h = (h * 31 + ((d + 7) if d is not None else 3)) % M61
     return (((t * 1000003 + i) * 1000003 + (src or 0)) * 1000003 + h) % M61
 
+# --- fault-injection nodes (C08 campaign); each logs when its fault fires ------------------------------
+from typing import Any as _Any
+from attrs import define as _define
+from pytask import PathNode as _PathNode
+
+@_define(kw_only=True)
+class LoadFailNode(_PathNode):
+    tag: str = ""
+    def load(self, is_product=False):
+        log(f"L {self.tag}")
+        raise RuntimeError(f"load of {self.tag} fails")
+
+@_define(kw_only=True)
+class SaveFailNode(_PathNode):
+    tag: str = ""
+    def save(self, value):
+        log(f"V {self.tag}")
+        raise RuntimeError(f"save of {self.tag} fails")
+
+@_define(kw_only=True)
+class StateFailNode(_PathNode):
+    tag: str = ""
+    def state(self):
+        log(f"T {self.tag}")
+        raise RuntimeError(f"state of {self.tag} fails")
+
+def make_bad_hash(tag):
+    def bad_hash(value):
+        log(f"H {tag}")
+        raise RuntimeError(f"hash of {tag} fails")
+    return bad_hash
+
 def body(t, src, deps, prods, beh, ret=None):
     """deps: list of Paths; prods: list of Paths (index = product index).
     ret: None = write products; otherwise the names of the products whose contents are *returned*."""
@@ -47,6 +79,9 @@ def body(t, src, deps, prods, beh, ret=None):
     if beh == "early":
         log(f"X {t}")
         raise RuntimeError(f"task {t} fails early")
+    if beh == "sysexit":
+        log(f"X {t}")
+        raise SystemExit(3)
     skip = int(beh.split(":")[1]) if beh.startswith("omit:") else None
     if ret is not None:
         vals = [str(F(t, i, src, ds)) for i in range(len(ret))]
@@ -126,7 +161,7 @@ def render_module(spec, m: int, src_value=None) -> str:
         "from pathlib import Path",
         "from typing import Annotated",
         "import pytask",
-        "from pytask import Product, task, PathNode",
+        "from pytask import Product, task, PathNode, PythonNode",
         "import _verif_rt as rt",
         "DATA = Path(__file__).resolve().parent / 'data'",
         f"SRC = {module_content(spec, m) if src_value is None else src_value}",
@@ -138,9 +173,19 @@ def render_module(spec, m: int, src_value=None) -> str:
         style = t.get("style", "default")
         deps, prods = t["deps"], t["prods"]
         deco_kwargs = []
+        beh = t.get("beh", "ok")
+        setup_fault = t.get("setup_fault")          # optional: "state" | "hash" | "marker" (C08 campaign)
+        body_beh = "ok" if beh in ("loadfail", "savefail") else beh
+        faulty_dep = t.get("faulty_dep", deps[0]) if deps and (beh == "loadfail" or setup_fault == "state") else None
+        if faulty_dep is not None or setup_fault == "hash":
+            style = "annotated"
+        if beh == "savefail" and prods:
+            style = "return"
         # after
         aft = t.get("after", [])
-        if aft:
+        if t.get("bad_after"):                       # optional: an unparsable `after` expression (C08 campaign)
+            deco_kwargs.append("after=" + repr(t["bad_after"]))
+        elif aft:
             ast_ = t.get("after_style", "expr")
             if ast_ in ("func", "list") and not all(a in local_ids and a != tid for a in aft):
                 ast_ = "expr"
@@ -157,16 +202,28 @@ def render_module(spec, m: int, src_value=None) -> str:
             deco_kwargs.append("kwargs={" + ", ".join(f"'{nm}': DATA / 'n{n}.txt'" for nm, n in zip(dep_names, deps)) + "}")
             params += dep_names
         elif style == "annotated":
-            params += [f"{nm}: Annotated[Path, PathNode(path=DATA / 'n{n}.txt')]" for nm, n in zip(dep_names, deps)]
+            for nm, n in zip(dep_names, deps):
+                cls = "PathNode"
+                extra = ""
+                if n == faulty_dep:
+                    cls = "rt.LoadFailNode" if beh == "loadfail" else "rt.StateFailNode"
+                    extra = f", tag='{tid}:{n}'"
+                params.append(f"{nm}: Annotated[Path, {cls}(path=DATA / 'n{n}.txt'{extra})]")
+            if setup_fault == "hash":
+                params.append(f"hv: Annotated[int, PythonNode(value={tid}, hash=rt.make_bad_hash('{tid}:hv'))]")
         else:
             params += [f"{nm}: Path = DATA / 'n{n}.txt'" for nm, n in zip(dep_names, deps)]
         ret = None
-        if style == "return" and prods and t.get("beh", "ok") in ("ok", "early"):
+        if style == "return" and prods and beh in ("ok", "early", "savefail", "sysexit"):
             # @task(produces=…): the RETURN value is stored in the product node(s)
+            def pnode(i, n):
+                if beh == "savefail" and i == 0:
+                    return f"rt.SaveFailNode(path=DATA / 'n{n}.txt', tag='{tid}:{n}')"
+                return f"DATA / 'n{n}.txt'"
             if len(prods) == 1:
-                deco_kwargs.append(f"produces=DATA / 'n{prods[0]}.txt'")
+                deco_kwargs.append(f"produces={pnode(0, prods[0])}")
             else:
-                deco_kwargs.append("produces={" + ", ".join(f"'{nm}': DATA / 'n{n}.txt'" for nm, n in zip(prod_names, prods)) + "}")
+                deco_kwargs.append("produces={" + ", ".join(f"'{nm}': {pnode(i, n)}" for i, (nm, n) in enumerate(zip(prod_names, prods))) + "}")
             ret = prod_names
             body_prods = "[]"
         elif style == "default" and prods:
@@ -179,6 +236,8 @@ def render_module(spec, m: int, src_value=None) -> str:
         else:
             params += [f"{nm}: Annotated[Path, Product] = DATA / 'n{n}.txt'" for nm, n in zip(prod_names, prods)]
             body_prods = "[" + ", ".join(prod_names) + "]"
+        if setup_fault == "marker":
+            L.append("@pytask.mark.skipif()")        # bad marker call: no condition given
         for mk in t.get("marks", []):
             if mk == "skip":
                 L.append("@pytask.mark.skip")
@@ -191,7 +250,10 @@ def render_module(spec, m: int, src_value=None) -> str:
         if deco_kwargs or style in ("kwargs", "return") or t.get("force_decorator"):
             L.append("@task(" + ", ".join(deco_kwargs) + ")")
         L.append(f"def {tname(tid)}({', '.join(params)}):")
-        L.append(f"    return rt.body({tid}, SRC, [{', '.join(dep_names)}], {body_prods}, {t.get('beh', 'ok')!r}, ret={ret!r})")
+        # the body of a load-fault task does not read the faulty dependency: were the function invoked in spite of the
+        # failing load, it would run to completion (and the oracle would see a fired fault without a FAIL report)
+        body_deps = [nm for nm, n in zip(dep_names, deps) if not (beh == "loadfail" and n == faulty_dep)]
+        L.append(f"    return rt.body({tid}, SRC, [{', '.join(body_deps)}], {body_prods}, {body_beh!r}, ret={ret!r})")
         L.append("")
     return "\n".join(L) + "\n"
 
@@ -224,6 +286,8 @@ def materialise(root: Path, spec, clock: Clock | None = None):
         write_file(module_path(root, m), render_module(spec, m), clock)
     for n, c in spec.get("inputs", {}).items():
         write_file(node_path(root, int(n)), str(c), clock)
+    for name, text in spec.get("extra_modules", {}).items():   # optional: broken task modules (C08 campaign)
+        write_file(root / name, text, clock)
 
 
 def rewrite_modules(root: Path, spec, clock: Clock | None, only=None):
@@ -281,10 +345,17 @@ def model_lines(spec):
         if "persist" in marks:
             flags.append("persist")
         prio = 1 if "try_first" in marks else (-1 if "try_last" in marks else 0)
+        beh = {"sysexit": "early"}.get(t.get("beh", "ok"), t.get("beh", "ok"))
+        deps = list(t["deps"])
+        if t.get("setup_fault"):
+            # a node whose state()/hash raises, or a marker whose evaluation raises, in setup = a private dependency
+            # that can never be found (both raise in pytask_execute_task_setup before the body)
+            deps.append(5000 + t["id"])
+        after = [] if t.get("bad_after") else t.get("after", [])
         lines.append(
-            f"engine.task id={t['id']} src={src_node(t['module'])} deps={','.join(map(str, t['deps']))} "
-            f"prods={','.join(map(str, t['prods']))} after={','.join(map(str, t.get('after', [])))} "
-            f"flags={','.join(flags)} prio={prio} beh={t.get('beh', 'ok')}")
+            f"engine.task id={t['id']} src={src_node(t['module'])} deps={','.join(map(str, deps))} "
+            f"prods={','.join(map(str, t['prods']))} after={','.join(map(str, after))} "
+            f"flags={','.join(flags)} prio={prio} beh={beh}")
     return lines
 
 
